@@ -10,6 +10,7 @@ fdict: {'type': 'Char'|'Integer'|..., 'null': bool, 'max_length': int, 'db_index
         'unique': bool, 'db_column': str|None, 'to': model name (relations), 'db_table': (M2M)}
 """
 import copy
+import os
 from collections import OrderedDict
 
 from vlib import boot  # noqa
@@ -370,14 +371,35 @@ def generated_statement_lists():
             {'op': 'meta', 'model': 'Item', 'prop': 'index_together', 'value': [('count', 'flag')]},
         ]),
     ]
-    for name, muts in progs:
-        _proj, sqls = generate(base, muts)
+    plan = [(name, base, muts) for name, muts in progs]
+    if os.environ.get('VERIF_TIER') == 'thorough':
+        # every single mutation of the E2 alphabet on two of its base model sets (the lists the real
+        # generator emits for them), as far as they are valid and have at least two statements
+        from vlib import e2run
+        specs = e2run.base_specs()
+        for bname in ('plain', 'custom'):
+            for i, m in enumerate(e2run.mutation_alphabet(specs[bname])):
+                plan.append(('%s_%d' % (bname, i), specs[bname], [m]))
+    for name, pbase, muts in plan:
+        try:
+            if pbase is not base:
+                evolved_spec(pbase, muts)
+            _proj, sqls = generate(pbase, muts)
+        except Exception:
+            if pbase is base:
+                raise
+            continue
         stmts = flatten_sql(sqls[0])
+        if pbase is not base and len(stmts) < 2:
+            continue
         # setup = schema of the start database + two rows
         reset_db('default')
-        classes = build_models(base)
+        classes = build_models(pbase)
         create_tables(classes, 'default')
         setup = [r[3] + ';' for r in master('default') if r[3]]
+        if pbase is not base:
+            out.append((name, setup, [(s, p) if p else s for (s, p) in stmts]))
+            continue
         setup += [
             'INSERT INTO "vapp_anchor" ("id", "value") VALUES (1, 10);',
             'INSERT INTO "vapp_item" ("id", "name", "count", "flag", "ref_id") VALUES (1, \'a\', NULL, 1, 1);',
